@@ -34,6 +34,34 @@ async def sk_expunge_subsets_then_pack(hp, w, rnd, ctx):
     await w.observe(full=True)
 
 
+async def sk_deleted_to_placeholder_and_created_again(hp, w, rnd, ctx):
+    """A mailbox with an inferior is deleted (it stays as a placeholder, the same
+    object inside the server) and created again; messages appended then get the
+    message numbers of the ones that went, with other dates and other contents.
+    What is fetched under each new UID -- date, size, content -- is what was
+    appended, now and after a restart."""
+    a = w.session()
+    await w.op_create(a, "proj")
+    await w.op_create(a, "proj/sub")
+    for i in range(3):
+        await w.op_append(a, "proj", date=["05-Jan-1999 08:00:00 +0000", "06-Jan-1999 08:00:00 +0000", None][i], body_lines=[f"old message {i} " + "x" * (30 * i)])
+    await w.op_select(a, "proj")
+    await w.op_fetch(a, [1, 2, 3], "UID INTERNALDATE RFC822.SIZE")
+    await w.op_search_flag(a, "SEEN")
+    await w.observe(full=True)
+    await w.op_unselect(a)
+    await w.op_delete(a, "proj")
+    await w.observe(full=True)
+    await w.op_create(a, "proj")
+    for i in range(3):
+        await w.op_append(a, "proj", date=["17-Mar-2021 09:30:00 +0000", None, "18-Mar-2021 09:30:00 +0000"][i], body_lines=[f"new message {i}", "y" * (17 * (3 - i))])
+    await w.op_select(a, "proj")
+    await w.op_fetch(a, [1, 2, 3], "UID INTERNALDATE RFC822.SIZE")
+    await w.observe(full=True)
+    await w.restart()
+    await w.observe(full=True)
+
+
 async def sk_rename_inbox_then_arrivals_in_the_new_mailbox(hp, w, rnd, ctx):
     """RENAME INBOX re-homes the messages under fresh UIDs in the new mailbox;
     what arrives there afterwards (APPEND, COPY, MOVE, delivery) gets UIDs above
@@ -72,7 +100,7 @@ async def sk_rename_inbox_then_arrivals_in_the_new_mailbox(hp, w, rnd, ctx):
 class C03(HistProp):
     prop = PROP
     names = ["INBOX", "other"]
-    skeletons = [sk_expunge_subsets_then_pack, sk_rename_then_refill, sk_rename_inbox_then_arrivals_in_the_new_mailbox]
+    skeletons = [sk_expunge_subsets_then_pack, sk_rename_then_refill, sk_rename_inbox_then_arrivals_in_the_new_mailbox, sk_deleted_to_placeholder_and_created_again]
     weights = {"append": 10, "store_del": 10, "expunge": 9, "uid_expunge": 4, "move": 5, "copy": 4, "deliver": 5, "restart": 2, "rename": 1, "rename_inbox": 1,
                "advance": 5, "probe_pairs": 6, "uid_fetch": 4, "fetch": 4, "create": 1}
     opts = {"observe_full": True, "create_names": ["other", "tmp"], "rename_targets": ["moved", "saved"]}
